@@ -20,6 +20,8 @@ PROP_CHECKS = {
             "C04_CompactResult", "C10_Readable"],
     "C09": ["C09_StaleAddMustFail", "C09_DirUnchanged", "C09_StaleCompactNoop", "C09_StaleCleanNoop", "C09_UpToDate", "C09_NextIndex", "C09_RefView", "C09_LogView",
             "C04_AddResult", "C04_StackAfterAdd"],
+    "C04": ["C04_AddResult", "C04_StackAfterAdd", "C04_OpenShape", "C04_CompactResult", "C04_RefView", "C04_LogView", "C14_TablesOnDisk",
+            "C10_Readable", "C10_OpenFails", "C09_DirUnchanged", "C12_AcceptIffLegal"],
     "C10": ["C10_Readable", "C10_OpenFails", "C10_ReloadFails", "C10_RefView", "C10_LogView", "C10_UpToDate"],
     "C11": ["C11_RefsFor"],
     "C12": ["C12_AcceptIffLegal", "C12_NoConflict", "C12_RefView"],
@@ -28,7 +30,7 @@ PROP_CHECKS = {
 }
 
 VOL = {"quick": 300, "thorough": 6000}
-VOLP = {"C16": {"quick": 200, "thorough": 4000}, "C10": {"quick": 150, "thorough": 4000}}
+VOLP = {"C04": {"quick": 200, "thorough": 4000}, "C16": {"quick": 200, "thorough": 4000}, "C10": {"quick": 150, "thorough": 4000}}
 
 
 def seek_steps(rng, g, h=1, raw_too=True):
@@ -400,7 +402,37 @@ def gen_c16(rng, i):
     return g.history("c16-%d" % i)
 
 
-GEN = {"C16": gen_c16, "C10": gen_c10, "C03": gen_c03, "C07": gen_c07, "C09": gen_c09, "C11": gen_c11, "C12": gen_c12, "C13": gen_c13}
+def gen_c04(rng, i):
+    """failed and abandoned transactions leave no effect, sequentially: multi-table Additions in which a table is refused and the
+    caller gives up - or goes on and commits the rest; refused single transactions; empty ones; a second handle that is out of date;
+    compactions in between.  Names from the conflict universe, so that refusals are frequent."""
+    nh = rng.choice([1, 1, 2])
+    names = rng.sample(S.NAMES_CONFLICT, rng.randint(3, 7))
+    g = S.HistGen(rng, names, nh=nh, cfg=S.rand_cfg(rng), logs=rng.random() < 0.3)
+    for h in range(1, nh + 1):
+        g.steps.append({"op": "open", "h": h})
+    for t in range(rng.randint(3, 8)):
+        h = rng.randint(1, nh)
+        x = rng.random()
+        if x < 0.45:
+            g.add(h=h, multi=True, nparts=rng.choice([2, 2, 3]))
+            if nh == 1 and rng.random() < 0.6:
+                g.steps[-1]["goon"] = True
+        elif x < 0.55:
+            g.add(h=h, part={"refs": [], "logs": []})
+        else:
+            g.add(h=h)
+        g.steps.append({"op": "disk", "h": h, "after": "add"})
+        g.steps.append({"op": "view", "h": h, "tag": "C04", "hasraw": False})
+        if rng.random() < 0.2 and g.ntab >= 2:
+            g.steps.append({"op": "compact", "h": h, "all": True})
+            g.steps.append({"op": "view", "h": h, "tag": "C04", "hasraw": False})
+    g.steps.append({"op": "open", "h": 1})       # a handle opened afterwards sees the committed transactions, nothing else
+    g.steps.append({"op": "view", "h": 1, "tag": "C04", "hasraw": False})
+    return g.history("c04-%d" % i)
+
+
+GEN = {"C04": gen_c04, "C16": gen_c16, "C10": gen_c10, "C03": gen_c03, "C07": gen_c07, "C09": gen_c09, "C11": gen_c11, "C12": gen_c12, "C13": gen_c13}
 
 
 def signature(check, trace, line):
